@@ -11,8 +11,6 @@ import (
 	"math/big"
 	"math/rand"
 
-	"github.com/iden3/go-schema-processor/v2/verifiable"
-
 	"vharness/common"
 	"vharness/issuer"
 )
@@ -30,8 +28,12 @@ func catalogue(sc *issuer.Scenario, rng *rand.Rand) []issuer.Mut {
 	ms := []issuer.Mut{
 		{"honest", "accept", func(p *issuer.ProofJ, e *issuer.Env) {}},
 		// ---- signature
-		{"signature-bit-S", "reject", func(p *issuer.ProofJ, e *issuer.Env) { p.Signature = issuer.S(issuer.FlipHexBit(*p.Signature, 32+rng.Intn(20), uint(rng.Intn(8)))) }},
-		{"signature-bit-R", "reject", func(p *issuer.ProofJ, e *issuer.Env) { p.Signature = issuer.S(issuer.FlipHexBit(*p.Signature, rng.Intn(31), uint(rng.Intn(8)))) }},
+		{"signature-bit-S", "reject", func(p *issuer.ProofJ, e *issuer.Env) {
+			p.Signature = issuer.S(issuer.FlipHexBit(*p.Signature, 32+rng.Intn(20), uint(rng.Intn(8))))
+		}},
+		{"signature-bit-R", "reject", func(p *issuer.ProofJ, e *issuer.Env) {
+			p.Signature = issuer.S(issuer.FlipHexBit(*p.Signature, rng.Intn(31), uint(rng.Intn(8))))
+		}},
 		{"signature-other-key", "reject", func(p *issuer.ProofJ, e *issuer.Env) { p.Signature = issuer.S(attSig) }},
 		{"signature-of-other-claim", "reject", func(p *issuer.ProofJ, e *issuer.Env) { p.Signature = issuer.S(altSig) }},
 		{"signature-removed", "reject", func(p *issuer.ProofJ, e *issuer.Env) { p.Signature = nil }},
@@ -119,7 +121,9 @@ func catalogue(sc *issuer.Scenario, rng *rand.Rand) []issuer.Mut {
 				e.Reg = []issuer.RegEntry{{Type: issuer.StatusType, Answer: a}}
 			}
 		}},
-		{"status-revoked", "reject", func(p *issuer.ProofJ, e *issuer.Env) { e.Reg = []issuer.RegEntry{{Type: issuer.StatusType, Answer: sc.Revoked.Clone()}} }},
+		{"status-revoked", "reject", func(p *issuer.ProofJ, e *issuer.Env) {
+			e.Reg = []issuer.RegEntry{{Type: issuer.StatusType, Answer: sc.Revoked.Clone()}}
+		}},
 		{"status-removed", "reject", func(p *issuer.ProofJ, e *issuer.Env) { p.IssuerData.CredentialStatus = nil }},
 		{"status-not-an-object", "reject", func(p *issuer.ProofJ, e *issuer.Env) { p.IssuerData.CredentialStatus = "https://status.example/x" }},
 		{"status-without-type", "reject", func(p *issuer.ProofJ, e *issuer.Env) {
@@ -146,11 +150,19 @@ func catalogue(sc *issuer.Scenario, rng *rand.Rand) []issuer.Mut {
 		{"status-resolver-error", "reject", func(p *issuer.ProofJ, e *issuer.Env) { e.Reg[0].Answer = nil }},
 		{"status-registry-empty", "reject", func(p *issuer.ProofJ, e *issuer.Env) { e.Reg = nil }},
 		// ---- status answer (C09's clauses, one fault each)
-		{"status-answer-state", "reject", func(p *issuer.ProofJ, e *issuer.Env) { e.Reg[0].Answer.Issuer.State = issuer.S(issuer.HexOf(issuer.RandField(rng))) }},
+		{"status-answer-state", "reject", func(p *issuer.ProofJ, e *issuer.Env) {
+			e.Reg[0].Answer.Issuer.State = issuer.S(issuer.HexOf(issuer.RandField(rng)))
+		}},
 		{"status-answer-state-removed", "reject", func(p *issuer.ProofJ, e *issuer.Env) { e.Reg[0].Answer.Issuer.State = nil }},
-		{"status-answer-claims-root", "reject", func(p *issuer.ProofJ, e *issuer.Env) { e.Reg[0].Answer.Issuer.ClaimsTreeRoot = issuer.S(issuer.HexOf(issuer.RandField(rng))) }},
-		{"status-answer-revocation-root", "reject", func(p *issuer.ProofJ, e *issuer.Env) { e.Reg[0].Answer.Issuer.RevocationTreeRoot = issuer.S(issuer.HexOf(issuer.RandField(rng))) }},
-		{"status-answer-roots-root", "reject", func(p *issuer.ProofJ, e *issuer.Env) { e.Reg[0].Answer.Issuer.RootOfRoots = issuer.S(issuer.HexOf(issuer.RandField(rng))) }},
+		{"status-answer-claims-root", "reject", func(p *issuer.ProofJ, e *issuer.Env) {
+			e.Reg[0].Answer.Issuer.ClaimsTreeRoot = issuer.S(issuer.HexOf(issuer.RandField(rng)))
+		}},
+		{"status-answer-revocation-root", "reject", func(p *issuer.ProofJ, e *issuer.Env) {
+			e.Reg[0].Answer.Issuer.RevocationTreeRoot = issuer.S(issuer.HexOf(issuer.RandField(rng)))
+		}},
+		{"status-answer-roots-root", "reject", func(p *issuer.ProofJ, e *issuer.Env) {
+			e.Reg[0].Answer.Issuer.RootOfRoots = issuer.S(issuer.HexOf(issuer.RandField(rng)))
+		}},
 		{"status-answer-of-other-issuer", "accept", func(p *issuer.ProofJ, e *issuer.Env) {
 			// the verifier does not relate the status answer's state to the proof's state (C09
 			// states internal consistency only); recorded as accepted, not as a violation
@@ -281,6 +293,5 @@ func Run(cfg *common.Config) (*common.Report, error) {
 			}
 		}
 	}
-	_ = verifiable.BJJSignatureProofType
 	return rep, d.Flush()
 }
